@@ -25,6 +25,8 @@ REPO = os.environ.get("VERIF_REPO", "/repo")
 WORK = os.path.join(ROOT, ".work")
 COQ = os.path.join(ROOT, "coq")
 DEFAULT_SEED = 20260922
+# a scratch copy of the repository (mutation testing) gets its own build and driver directories
+TAG = "" if REPO == "/repo" else "-" + hashlib.md5(REPO.encode()).hexdigest()[:8]
 
 FORBIDDEN = re.compile(
     r"\b(Admitted|admit|Axiom|Axioms|Parameter|Parameters|Conjecture|Admit Obligations)\b"
@@ -99,7 +101,7 @@ class Ctx:
         """Compile harness/<name>.cpp against the rebuilt library."""
         b = self.build_lib(cfg)
         src = os.path.join(ROOT, "harness", name + ".cpp")
-        exe = os.path.join(WORK, "bin", "%s-%s" % (name, cfg))
+        exe = os.path.join(WORK, "bin", "%s-%s%s" % (name, cfg, TAG))
         os.makedirs(os.path.dirname(exe), exist_ok=True)
         lib = os.path.join(b, "symengine", "libsymengine.a")
         deps = [src, lib, os.path.join(ROOT, "harness", "common.h"), os.path.join(ROOT, "harness", "dump.h")]
@@ -139,6 +141,8 @@ class Ctx:
 
     def coq_make(self, targets, timeout=2400):
         """make -k the given .vo targets (full .vo build). Returns (all_ok, log)."""
+        if not targets:
+            return True, ""
         with Lock(os.path.join(WORK, "coq.lock")):
             self.coq_makefile()
             rc, out = sh(["timeout", str(timeout), "make", "-k", "-j16"] + targets, cwd=COQ, timeout=timeout + 30)
